@@ -42,7 +42,15 @@
    the recorded C12 finding), [closed_flow A] (the scan of A ends at flow level 0 - implied by acceptance in reality,
    the link scanner flow level / parser acceptance is not proved), [no_eof_block A] (no token of A is a block scalar
    of line feeds only with a non-empty span: "|\n" at the end of A has the span [indicator, end] alone and the
-   empty span [end, end] before a "..." line - same text, different span: see Example eof_block_span_differs). *)
+   empty span [end, end] before a "..." line - same text, different span: see Example eof_block_span_differs).
+   FINAL FORM (Proofs/ScanPrefixFinal*.v): the last two side conditions are removed.
+     C15_events_up_to_spans            the parser's events without spans depend on the tokens only up to their spans
+     C15_flow_level_exact              a scan that ends properly with a bracket-balanced token stream ends at flow level 0
+                                       (any input back-end, any fuel; invariant: flow level = bracket depth of the tokens
+                                       delivered or queued, unless a prefix of that stream is beyond repair)
+     C15_closed_flow_of_accepted       [closed_flow A] follows from acceptance (C06 + the line above)
+     C15_text_composition_final        ends_with_break A, nonul A, run_str A and run_str B accepted  =>  the composition:
+                                       property C15 for two streams, as a statement about TEXT *)
 From Coq Require Import List NArith ZArith Bool.
 Import ListNotations.
 Require Import Parser Grammar SBase SPrim SDir SScalar SFetch Pipe C02run.
@@ -50,6 +58,8 @@ Require Import DocReset DocRun DocShift DocSim DocIndep DocIndepRun ScanFrame Do
 Require Import ScanShift ScanShiftTop ScanShiftParse ScanShiftDoc.
 Require ScanPrefix ScanPrefixTop.
 Require Import ScanPrefixDoc.
+Require ScanPrefixFinalParse ScanPrefixFinalFlow.
+Require Import ScanPrefixFinalDoc ScanPrefixFinalTop.
 
 (* ------------------------------------------------------------------------------------------------ *)
 (* parser                                                                                            *)
@@ -338,6 +348,46 @@ Theorem C15_text_composition_total : forall (A B : list N) (evA evB : list (even
 Proof. exact text_composition_total. Qed.
 Print Assumptions C15_text_composition_total.
 
+(* ---- final form: [no_eof_block] and [closed_flow] removed ---- *)
+Theorem C15_events_up_to_spans : forall (toks toks' : list token) (keep : bool) (evs : list (event * span)),
+  accepts toks keep evs -> map ScanPrefixFinalParse.etk toks' = map ScanPrefixFinalParse.etk toks ->
+  exists evs', accepts toks' keep evs' /\ DocRun.evs_of evs' = DocRun.evs_of evs.
+Proof. exact ScanPrefixFinalParse.accepts_up_to_spans. Qed.
+Print Assumptions C15_events_up_to_spans.
+
+Theorem C15_flow_level_exact : forall (I : Type) (ops : InputOps I) (F fuel : nat) (i : I) ss t sps,
+  scan_all ops F fuel (init_sc i) [] = (ss :: t ++ [(sps, TStreamEnd)], SEnded) ->
+  snd ss = TStreamStart -> Forall (fun x => snd x <> TStreamEnd) t ->
+  RejectProofs.flow_balanced (ss :: t ++ [(sps, TStreamEnd)]) [] = true ->
+  sc_flow_level (ScanPrefixFinalFlow.last_state ops F fuel (init_sc i)) = 0%N.
+Proof. exact (@ScanPrefixFinalFlow.balanced_flow_level_zero). Qed.
+Print Assumptions C15_flow_level_exact.
+
+Theorem C15_closed_flow_of_accepted : forall (A : list N) (evA : list (event * span)),
+  run_str A = (evA, PDone) -> closed_flow A.
+Proof. exact closed_flow_of_accepted. Qed.
+Print Assumptions C15_closed_flow_of_accepted.
+
+Theorem C15_text_composition_spanfree : forall (A B : list N) (evA evB : list (event * span)),
+  ends_with_break A -> nonul A -> closed_flow A ->
+  run_str A = (evA, PDone) -> run_str B = (evB, PDone) ->
+  exists evC, run_str (glue_text A B) = (evC, PDone)
+    /\ DocRun.evs_of evC
+       = removelast (DocRun.evs_of evA)
+         ++ map (shift_ev (count_anchored (DocRun.evs_of evA))) (tl (DocRun.evs_of evB)).
+Proof. exact text_composition_spanfree. Qed.
+Print Assumptions C15_text_composition_spanfree.
+
+Theorem C15_text_composition_final : forall (A B : list N) (evA evB : list (event * span)),
+  ends_with_break A -> nonul A ->
+  run_str A = (evA, PDone) -> run_str B = (evB, PDone) ->
+  exists evC, run_str (glue_text A B) = (evC, PDone)
+    /\ DocRun.evs_of evC
+       = removelast (DocRun.evs_of evA)
+         ++ map (shift_ev (count_anchored (DocRun.evs_of evA))) (tl (DocRun.evs_of evB)).
+Proof. exact text_composition_final. Qed.
+Print Assumptions C15_text_composition_final.
+
 (* ------------------------------------------------------------------------------------------------ *)
 (* examples: the hypotheses are satisfiable, the statements are not trivially true                    *)
 (* ------------------------------------------------------------------------------------------------ *)
@@ -533,3 +583,18 @@ Example open_flow_not_closed :
   /\ sc_flow_level (ScanPrefixTop.scan_last (str_F [91;97;10]) (4 * str_F [91;97;10] + 20)
                      (init_sc {| si_chars := [91;97;10]; si_look := 0 |})) = 1.
 Proof. split; vm_compute; reflexivity. Qed.
+(* the class formerly excluded by [no_eof_block] is covered by the final form: A = "|\n" (an empty block scalar running
+   into the end of input), B = "[ : ]\n" *)
+Example text_composition_final_applied_eof_block :
+  exists evA evB evC, run_str [124;10] = (evA, PDone) /\ run_str ex_B = (evB, PDone)
+    /\ run_str (glue_text [124;10] ex_B) = (evC, PDone)
+    /\ DocRun.evs_of evC = removelast (DocRun.evs_of evA) ++ map (shift_ev (count_anchored (DocRun.evs_of evA))) (tl (DocRun.evs_of evB)).
+Proof.
+  assert (HA : exists evA, run_str [124;10] = (evA, PDone)) by (eexists; vm_compute; reflexivity).
+  assert (HB : exists evB, run_str ex_B = (evB, PDone)) by (eexists; vm_compute; reflexivity).
+  destruct HA as [evA HA], HB as [evB HB].
+  assert (C1 : ends_with_break [124;10]) by (right; reflexivity).
+  assert (C2 : nonul [124;10]) by (repeat constructor; discriminate).
+  destruct (C15_text_composition_final [124;10] ex_B evA evB C1 C2 HA HB) as (evC & HC & EV).
+  exists evA, evB, evC. auto.
+Qed.
